@@ -43,7 +43,7 @@ TARGETS = {
             ('geodepy/geodesy.py', ['enu2xyz', 'xyz2enu'])],
     'C17': [('geodepy/ntv2reader.py', ['SubGrid.ntv2_bilinear', 'SubGrid.ntv2_bicubic', 'bilinear_interpolation', 'bicubic_interpolation', 'interpolate_ntv2', 'read_node']),
             ('geodepy/transform.py', ['ntv2_2d'])],
-    'C18': [('geodepy/gnss.py', ['set_creation_time', 'read_sinex_estimate', 'read_sinex_sites', 'remove_matrixzeros_sinex'])],
+    'C18': [('geodepy/gnss.py', ['set_creation_time', 'read_sinex_estimate', 'read_sinex_sites', 'remove_matrixzeros_sinex', 'remove_stns_sinex', 'remove_velocity_sinex', 'read_sinex_matrix'])],
     'C19': [('geodepy/convert.py', ['polar2rect', 'rect2polar']), ('geodepy/survey.py', ['joins', 'radiations', 'va_conv', 'first_vel_corrn', 'part_h2o_vap_press', 'group_refractivity'])],
     'C20': [('api/app.py', ['handle_vincinv', 'handle_vincdir'])],
 }
@@ -79,6 +79,8 @@ def sites(fn):
             add('fn')
         if isinstance(n, ast.Constant) and isinstance(n.value, (int, float)) and not isinstance(n.value, bool) and n.value not in (0, 1):
             add('const')
+        if isinstance(n, ast.Constant) and isinstance(n.value, int) and not isinstance(n.value, bool) and n.value in (0, 1):
+            add('const01')
         if isinstance(n, ast.BinOp) and isinstance(n.op, (ast.Add, ast.Sub)):
             add('addsub')
         if isinstance(n, ast.BinOp) and isinstance(n.op, (ast.Mult, ast.Div)):
@@ -119,6 +121,10 @@ def apply_mutation(fn, kind, index):
                 if self.hit():
                     done[0] = True
                     return ast.Constant(value=(n.value + 1 if isinstance(n.value, int) else n.value * 1.5))
+            elif kind == 'const01' and isinstance(n, ast.Constant) and isinstance(n.value, int) and not isinstance(n.value, bool) and n.value in (0, 1):
+                if self.hit():
+                    done[0] = True
+                    return ast.Constant(value=n.value + 1)
             elif kind == 'addsub' and isinstance(n, ast.BinOp) and isinstance(n.op, (ast.Add, ast.Sub)):
                 if self.hit():
                     n.op = ast.Sub() if isinstance(n.op, ast.Add) else ast.Add()
